@@ -12,7 +12,11 @@ Parts (all on the REAL /repo code, compared through the public API):
   D  PassData: every reserved and user key, pickle / copy / become / update,
      against the record model; update_error_mul against exact rationals;
   E  Workflows nesting every control pass, RuntimeTask.serialized_fnargs;
-  F  the malformed payload stream for rebuild_circuit, witnesses.
+  F  the malformed payload stream for rebuild_circuit, witnesses;
+  N  (strengthening round) circuits holding gates that differ in exactly one
+     constructor argument (harness/c16_neighbours.py): the real == must
+     separate them, and what arrives is judged per operation by an
+     independent description and the unitary, never by == alone.
 """
 from __future__ import annotations
 
@@ -2054,7 +2058,13 @@ def _run(ck: Check):
         'from the model of the fixed __eq__/__hash__; sharing: 17 circuit-to-'
         'circuit calls and 9 in-process pass pipelines checked for shared '
         'Operations and leaking edits; a '
-        'circuit counts as non-trivial with more than 6 operations')
+        'circuit counts as non-trivial with more than 6 operations; part N: '
+        'for every gate class with constructor arguments (live signatures) '
+        'families of gates differing in exactly one argument, placed '
+        'together pairwise / as a family / as two blocks in one circuit, '
+        'nine trips each, compared per operation by class + every attribute '
+        'and public property + location + parameters and by numpy unitaries '
+        'up to phase (1e-10), and the real == must separate different gates')
     signal.alarm(0)
     if not proved:
         ck.violation(
@@ -2084,4 +2094,10 @@ def _run(ck: Check):
         'them needs a runtime)',
         'gate identity of the model = (gid, radixes, num_params); that real '
         'gate equality agrees with it is validated on the gate sweep',
+        'C16_reduce_rebuild_keyed assumes KeyInj: the dictionary key (the '
+        'real __eq__/__hash__) separates the gates occurring in the circuit; '
+        'evaluated by part N with the real == on circuits that hold, for '
+        'every constructor argument of every gate class, two gates differing '
+        'only in it (identity = class + instance attributes + public '
+        'properties + unitary); C16_keyed_requires_injective is the converse',
     ]
